@@ -242,7 +242,7 @@ def shape_programs(dev):
     def prog(name, ops):
         h = _hdr(f"shapes/{name}", dev, lw(), wlmax=950, flags={"comp": False, "norm": False})
         h["ops"] = ops
-        h["pres"] = [{"wells": "ndarray", "vols": "ndarray"}, {}, {"wells": "list", "vols": "ndarray"}, {"wells": "tuple", "vols": "tuple"}] * 3
+        h["pres"] = [{"wells": "ndarray", "vols": "ndarray"}, {}, {"wells": "ndarray", "vols": "list"}, {"wells": "tuple", "vols": "tuple"}] * 4
         progs.append(h)
 
     full = [[(r, c) for c in range(6)] for r in range(4)]
@@ -261,6 +261,9 @@ def shape_programs(dev):
     prog("trough-alias", [
         {"op": "remove", "lw": T, "wells": M(tfull), "vols": S(10), "label": "all virtual wells"},    # each column charged 5 times
         {"op": "add", "lw": T, "wells": M(tfull), "vols": M([[1, 2, 3]] * 5), "label": "2d on trough"},
+        {"op": "remove", "lw": T, "wells": M(tfull), "vols": S(2), "label": "the same volume through every virtual well (5 x 2 per column)"},
+        {"op": "add", "lw": T, "wells": M(tfull), "vols": S(3), "label": "and back (5 x 3 per column)"},
+        {"op": "dispense", "lw": T, "wells": M(tfull), "vols": S(1), "label": "through the worklist"},
         {"op": "aspirate", "lw": T, "wells": L([(4, 0), (0, 0), (2, 1), (4, 0)]), "vols": L([5, 6, 7, 8]), "label": None},
         {"op": "dispense", "lw": T, "wells": L([(3, 2), (1, 2)]), "vols": L([11, 13]), "label": None},
         {"op": "transfer", "src": T, "sw": M([[(0, 0), (0, 1)], [(1, 0), (1, 1)], [(2, 0), (2, 1)]]), "dst": P,
